@@ -28,13 +28,36 @@ class PolicyModel:
         t = src.tree(POLICY)
         self.cls = get_class(t, 'AttributePolicy')
         rs = get_class(t, 'AttributeRuleSet')
-        rs_init = get_method(rs, '__init__')
-        self.rs_params = params(rs_init)
-        # parameter -> stored field name
+        rs_init = get_method(rs, '__init__', optional=True)
         self.param_field = {}
-        for n in walk_local(rs_init):
-            if isinstance(n, ast.Assign) and is_self_attr(n.targets[0]) and isinstance(n.value, ast.Name):
-                self.param_field[n.value.id] = n.targets[0].attr
+        if rs_init is not None:
+            self.rs_params = params(rs_init)
+            # parameter -> stored field name
+            for n in walk_local(rs_init):
+                if isinstance(n, ast.Assign) and is_self_attr(n.targets[0]) and isinstance(n.value, ast.Name):
+                    self.param_field[n.value.id] = n.targets[0].attr
+        else:
+            # an immutable record: a namedtuple (sub)class whose __new__ keeps the constructor signature and hands the values to the tuple
+            from .source import _NamedTuples
+            rs_new = get_method(rs, '__new__', optional=True)
+            base = rs.bases[0] if len(rs.bases) == 1 else None
+            if isinstance(base, ast.Name):
+                defs = [x.value for x in t.body if isinstance(x, ast.Assign) and len(x.targets) == 1 and isinstance(x.targets[0], ast.Name) and x.targets[0].id == base.id]
+                base = defs[0] if len(defs) == 1 else None
+            fields = _NamedTuples._fields(base) if isinstance(base, ast.Call) else None
+            if fields is None:
+                raise AnalysisError('anchor vanished: AttributeRuleSet has neither __init__ nor a namedtuple base')
+            if rs_new is None:
+                self.rs_params = list(fields)
+                self.param_field = {f: f for f in fields}
+            else:
+                self.rs_params = [a.arg for a in rs_new.args.args][1:]
+                calls = [c for c in walk_local(rs_new) if isinstance(c, ast.Call) and isinstance(c.func, ast.Attribute) and c.func.attr == '__new__']
+                if len(calls) != 1 or calls[0].keywords or len(calls[0].args) != len(fields) + 1:
+                    raise AnalysisError('unrecognised construct: AttributeRuleSet.__new__ does not hand its parameters to the tuple constructor positionally')
+                for f, a in zip(fields, calls[0].args[1:]):
+                    if isinstance(a, ast.Name):
+                        self.param_field[a.id] = f
         self.field_param = {v: k for k, v in self.param_field.items()}
         init = get_method(self.cls, '__init__')
         table = None
